@@ -32,7 +32,12 @@ template <typename FP_Interval_Type, typename FP_Format>
 inline
 Constant_Floating_Point_Expression<FP_Interval_Type, FP_Format>::
 Constant_Floating_Point_Expression(const char* str_value)
-  : value(str_value) {}
+  : value(str_value) {
+  // The constant of the analyzed program is one of the floating point
+  // numbers adjacent to the real number denoted by `str_value':
+  // the open interval built from the string would exclude both.
+  value.topological_closure_assign();
+}
 
 template <typename FP_Interval_Type, typename FP_Format>
 inline
